@@ -372,6 +372,13 @@ func c05Matrix(r *vReport, idx *int64) {
 		{"include-expression", "      matrix:\n        ka: [1]\n        include: ${{ fromJSON(vars.I) }}\n", nil, true, nil},
 		{"include-element-expression", "      matrix:\n        ka: [1]\n        include:\n          - ${{ fromJSON(vars.I) }}\n", nil, true, nil},
 		{"matrix-expression", "      matrix: ${{ fromJSON(vars.M) }}\n", nil, true, nil},
+		// include elements given by expressions whose type is an object with UNKNOWN keys (a map of
+		// strings, an open object), next to a literal element / alone / after a literal element
+		{"include-element-vars", "      matrix:\n        ka: [1]\n        include:\n          - ${{ vars }}\n", nil, true, nil},
+		{"include-element-event", "      matrix:\n        ka: [1]\n        include:\n          - kinc: 1\n          - ${{ github.event }}\n", nil, true, nil},
+		{"include-element-vars-first", "      matrix:\n        include:\n          - ${{ vars }}\n          - kinc: 1\n", nil, true, nil},
+		{"include-element-vars-and-literal-json", "      matrix:\n        ka: [1]\n        include:\n          - ${{ vars }}\n          - ${{ fromJSON('{\"kj\": 1}') }}\n", nil, true, nil},
+		{"include-element-client-payload", "      matrix:\n        ka: [1]\n        include:\n          - ${{ github.event.client_payload }}\n", nil, true, nil},
 	}
 	positions := []string{"step-run", "step-env", "step-if", "job-name", "job-env", "runs-on", "container-image"}
 	// the same definitions with the keys spelled in mixed case (references stay upper-cased: names
